@@ -41,7 +41,7 @@ fn alphabet_a() -> Vec<Op> {
     ]
 }
 
-/// Reduced alphabet for the deepest C03 tier.
+/// Reduced alphabet for the deepest C03 tier (incl. an anchored read that is held and pushed late).
 fn alphabet_a_small() -> Vec<Op> {
     vec![
         a(K::Push(65)),
@@ -56,6 +56,9 @@ fn alphabet_a_small() -> Vec<Op> {
         a(K::Advance(66)),
         a(K::Read(5)),
         a(K::Clear),
+        // an anchored read held across other operations and pushed late
+        a(K::HoldRead(70)),
+        a(K::HeldPush),
     ]
 }
 
@@ -73,6 +76,9 @@ fn alphabet_b() -> Vec<Op> {
         a(K::PushBorrowed(3)),
         a(K::Push(100)),
         a(K::FlushCache),
+        // leaves 4 bytes in the arena chunk: push_copy(3) then ends 1 byte short of the chunk end,
+        // so the next placeholder opens a new chunk
+        a(K::Burn(4)),
         a(K::Consume(1)),
         a(K::Consume(255)),
         a(K::Advance(1)),
@@ -442,11 +448,11 @@ fn run(ctx: &Ctx) -> Report {
             }
         }
         "C10" => {
-            explore(ctx, &mut rep, "C10", "C10 leak clause, alphabet C", alphabet_c(false), Start::Fresh, vec![], t.pick(5, 6));
-            explore(ctx, &mut rep, "C10", "C10 leak clause, alphabet C", alphabet_c(false), Start::FromSlices, vec![], t.pick(4, 5));
+            explore(ctx, &mut rep, "C10", "C10 leak clause, alphabet C", alphabet_c(false), Start::Fresh, vec![], t.pick(4, 6));
+            explore(ctx, &mut rep, "C10", "C10 leak clause, alphabet C", alphabet_c(false), Start::FromSlices, vec![], t.pick(3, 5));
             explore(ctx, &mut rep, "C10", "C10 leak clause, alphabet E (anchored memory)", alphabet_e(), Start::Fresh, vec![], t.pick(6, 7));
             for (name, seed) in seeds() {
-                explore(ctx, &mut rep, "C10", &format!("C10 leak clause after seed {}", name), alphabet_c(false), Start::Fresh, seed, t.pick(4, 5));
+                explore(ctx, &mut rep, "C10", &format!("C10 leak clause after seed {}", name), alphabet_c(false), Start::Fresh, seed, t.pick(3, 5));
             }
         }
         "C20" => explore_c20(ctx, &mut rep, t.pick(3, 3), t.pick(3, 5)),
